@@ -485,7 +485,7 @@ def c08(tier, seed, wd, replay):
     if tier == "thorough":
         name, consts = qcfg("graphs-4x4-D", NV=4, InitBV=4, NL=4, Kinds={"D"}, OnlyOps={"new"}, AllowNone=False)
         run_config(run, "C08", name + ":Vertex", consts, wd, {"kind": "C08", "seed": seed, "vectors": 6, "big": True},
-                   probe_filter=lambda ks: json.loads(ks)["nl"] == 4 and P.h(ks) % 3 == 0)
+                   probe_filter=lambda ks: json.loads(ks)["nl"] == 4 and P.h(ks) % 12 == 0)
     deep_stage(run, "C08", wd, 450 if tier == "quick" else 800)
     run.exhaustive = True
     run.assumptions = ASSUME + ["Python values are abstracted into equality classes by the executor (1 == 1.0 == True; equal strings built at run time)"]
